@@ -260,6 +260,11 @@ class ControlTheory(Theory):
             return out
         raise Unsupported(f"dict.{name}()")
 
+    def construct(self, st, fr, c, pos, kws, node):
+        if c.name in self.hooks:
+            return self.hooks[c.name](st, fr, pos, kws, node)
+        return super().construct(st, fr, c, pos, kws, node)
+
     def getattr_place(self, st, v, attr):
         return None
 
